@@ -25,10 +25,12 @@ CONTRACTS["model:Compartment.resolve_outflows"] = dict(
         ("C01.outflow_is_sum_of_links", "self._cached_outflow == sum(l.vals[ti] for l in self.outlinks)"),
         ("C02.flows_nonneg", "all(l.vals[ti] >= 0 for l in self.outlinks)"),
         ("C01+C02.no_overdraw", "self._cached_outflow <= self.vals[ti]"),   # Compartment.update relies on it: the clip branch is then dead
-        ("C02.common_rescale", "all(a.vals[ti] * b._cache == b.vals[ti] * a._cache for a in self.outlinks for b in self.outlinks)"),
-        ("C03.fraction_to_people", "all(l.vals[ti] * max(1, sum(x._cache for x in self.outlinks)) == l._cache * self.vals[ti] for l in self.outlinks)"),
+        # (stated over the fractions the function was GIVEN: old(...) -- a change that tampers with the cached fractions before using
+        # them must fail these clauses, not only the frame)
+        ("C02.common_rescale", "all(a.vals[ti] * old(b._cache) == b.vals[ti] * old(a._cache) for a in self.outlinks for b in self.outlinks)"),
+        ("C03.fraction_to_people", "all(l.vals[ti] * max(1, old(sum(x._cache for x in self.outlinks))) == old(l._cache) * self.vals[ti] for l in self.outlinks)"),
     ],
-    frame_props=["C01", "C02"],
+    frame_props=["C01", "C02", "C03"],
     defined_props=["C02"],
 )
 
@@ -38,7 +40,7 @@ CONTRACTS["model:SourceCompartment.resolve_outflows"] = dict(
     requires=["0 <= ti", _links_ti_ok, _plain_out, "all(l._cache >= 0 for l in self.outlinks)"],
     modifies=["l.vals[ti] for l in self.outlinks"],
     ensures=[
-        ("C03.source_emits_cache", "all(l.vals[ti] == l._cache for l in self.outlinks)"),
+        ("C03.source_emits_cache", "all(l.vals[ti] == old(l._cache) for l in self.outlinks)"),
         ("C02.flows_nonneg", "all(l.vals[ti] >= 0 for l in self.outlinks)"),
     ],
     frame_props=["C01", "C02", "C03"],
@@ -149,12 +151,12 @@ CONTRACTS["model:Model.update_links#conversion"] = dict(
     modifies=["l._cache for l in par.links", "par._source_popsize_cache_time", "par._source_popsize_cache_val"],
     raises={"ModelError": "par.units != 'rate' and par.units != 'probability' and par.units != 'number' and par.units != 'duration' and par.vals[ti] > 0"},
     ensures=[
-        ("C03.rate_probability", "implies(par.units == 'rate' or par.units == 'probability', all(l._cache == max(0, par.vals[ti]) * self.dt / par.timescale for l in par.links))"),
-        ("C03.duration", "implies(par.units == 'duration', all(l._cache == (self.dt / (par.vals[ti] * par.timescale) if par.vals[ti] > 0 else 0) for l in par.links))"),
-        ("C03.number_from_source", "implies(par.units == 'number' and isinstance(par.links[0].source, SourceCompartment), par.links[0]._cache == max(0, par.vals[ti]) * self.dt / par.timescale)"),
-        ("C03.number_shared", "implies(par.units == 'number' and not isinstance(par.links[0].source, SourceCompartment) and par.vals[ti] > 0, "
-                              "all(l._cache * old(%s) == (par.vals[ti] * self.dt / par.timescale if old(%s) != 0 else 0) for l in par.links))" % (_popsize, _popsize)),
-        ("C02+C03.negative_moves_nobody", "implies(par.vals[ti] <= 0, all(l._cache == 0 for l in par.links))"),
+        ("C03.rate_probability", "implies(par.units == 'rate' or par.units == 'probability', all(l._cache == max(0, old(par.vals[ti])) * self.dt / par.timescale for l in par.links))"),
+        ("C03.duration", "implies(par.units == 'duration', all(l._cache == (self.dt / (old(par.vals[ti]) * par.timescale) if old(par.vals[ti]) > 0 else 0) for l in par.links))"),
+        ("C03.number_from_source", "implies(par.units == 'number' and isinstance(par.links[0].source, SourceCompartment), par.links[0]._cache == max(0, old(par.vals[ti])) * self.dt / par.timescale)"),
+        ("C03.number_shared", "implies(par.units == 'number' and not isinstance(par.links[0].source, SourceCompartment) and old(par.vals[ti]) > 0, "
+                              "all(l._cache * old(%s) == (old(par.vals[ti]) * self.dt / par.timescale if old(%s) != 0 else 0) for l in par.links))" % (_popsize, _popsize)),
+        ("C02+C03.negative_moves_nobody", "implies(old(par.vals[ti]) <= 0, all(l._cache == 0 for l in par.links))"),
         ("C02.fraction_nonneg", "implies(not (par.units == 'number' and isinstance(par.links[0].source, SourceCompartment)), all(l._cache >= 0 for l in par.links))"),
     ],
     frame_props=["C01", "C02", "C03"],
